@@ -296,9 +296,13 @@ class Report:
 def _by_rule(obs):
     d = {}
     for o in obs:
-        r = d.setdefault(o['rule'], {'instances': 0, 'ok': 0})
+        r = d.setdefault(o['rule'], {'instances': 0, 'ok': 0, 'obligations': []})
         r['instances'] += 1
         r['ok'] += int(o['ok'])
+        # the distinct obligation texts of the rule (what it demands), for the rule index in DESIGN.md
+        txt = re.sub(r'\[[^\]]*\]$', '', o['instance']).strip()
+        if not txt.startswith('floor:') and txt not in r['obligations'] and len(r['obligations']) < 6:
+            r['obligations'].append(txt[:200])
     return d
 
 
